@@ -20,10 +20,10 @@ def run(c, replay):
         range_expressions="every N, A..B, A.., ..B, .. with bounds in -4..4 without 0 (73 accepted forms); "
                           "comma lists: all 196 ordered pairs of a 14-expression core on lines <= %d" % c.pick(4, 5),
         parser="all strings of length <= %d over - . 1 2 0 a" % c.pick(5, 7),
-        nth_match=dict(line_alphabet="a b é ␠ :", line_len=c.pick(6, 7), delimiters=5, nth_lists=12,
+        nth_match=dict(line_alphabet="a b é ␠ :", line_len=c.pick(5, 7), delimiters=5, nth_lists=12,
                        queries="fuzzy exact prefix suffix equal boundary, inverse fuzzy/exact, --no-extended fuzzy/exact x texts a b ab é"),
         cli=dict(line_len=c.pick(5, 6), invocations=2400),
-        templates=dict(line_len=c.pick(5, 6), forms="--with-nth/--accept-nth list, {..} template, <{A}|{n}|{B}> template, {rsN} and {rN} placeholders"))
+        templates=dict(line_len=c.pick(4, 6), forms="--with-nth/--accept-nth list, {..} template, <{A}|{n}|{B}> template, {rsN} and {rN} placeholders"))
     c.assumptions += [
         "a line that ends in a delimiter has a trailing empty field when fzf treats the delimiter as a literal string and none when it "
         "treats it as a regular expression (read back from delimiterRegexp); both are partitions of the line, the man page states neither",
@@ -31,6 +31,8 @@ def run(c, replay):
         "with --nth the last expression of the list loses its trailing delimiter and trailing white space before matching (non-AWK), "
         "the others keep theirs - as the code comment 'strip the last delimiter to allow suffix match' says",
         "the meaning of a single term on a piece of text (fuzzy/exact/prefix/suffix/equal/boundary, smart case, normalisation) is C01's reference",
+        "command line: a single whole-range list (.., 1.., ..-1) and, under --no-extended, any list containing one make --nth irrelevant "
+        "(options.go says so): the line is then searched as it is, nothing stripped from its end",
         "{N} placeholders are observed with the r flag (no shell quoting; quoting is C12's subject)",
     ]
     if replay:
